@@ -25,7 +25,7 @@ LEVEL_TEXT = 'Every scale of the alphabet on every listed crystal and base, with
 LEVEL_NOTE = 'Scale alphabet {1e-3,1,1e3,1e6,1e8,1e9,1e10,1e12,1e14,1e16}, applied to all omega2 classes together and to each class alone; nothing is said about other scales.'
 
 SCALES = [1e-3, 1., 1e3, 1e6, 1e8, 1e9, 1e10, 1e12, 1e14, 1e16]
-QUICK = [('FCC', 0, 1), ('HCP', 0, 1), ('HONEY', 0, 1), ('OMEGA', 0, 1), ('RECTM', 0, 1), ('BCC', 1, 1)]
+QUICK = [('FCC', 0, 1), ('HCP', 0, 1), ('HONEY', 0, 1), ('OMEGA', 0, 1), ('RECTM', 0, 1), ('BCC', 1, 1), ('OBLIQUE', 1, 1)]   # OBLIQUE: point group 2 admits an antisymmetric invariant tensor
 THOROUGH = QUICK + [('SC', 0, 1), ('SQUARE', 0, 1), ('DIAMOND', 1, 1), ('NBO', 0, 1), ('B2', 0, 1), ('ROMEGA', 0, 1), ('L12', 0, 1), ('FCC', 0, 2), ('KAGOME', 0, 1), ('TRIA', 1, 1)]
 NAMES = ('L0vv', 'Lss', 'Lsv', 'L1vv')
 
@@ -97,10 +97,12 @@ def evaluate(case):
                     if not np.all(np.isfinite(flat)):
                         viols.append({'oracle': 'finite', 'key': key, 'detail': [x.tolist() for x in L]})
                     else:
-                        asym = max(float(np.abs(x - x.T).max()) for x in L) / vm.tscale(*L)
                         # the standard algorithm solves a system of condition number ~ omega2*g: its round-off (eps x scale) is not
-                        # symmetric; the large-omega2 algorithm is held to 1e-9 at every scale
-                        if asym > max(1e-9, 0. if took_large else 1e-15 * s): viols.append({'oracle': 'symmetric', 'key': key, 'detail': asym})
+                        # symmetric; the large-omega2 algorithm is held to 1e-9 at every scale.  One oracle per tensor.
+                        for tname, x in zip(('L0vv', 'Lss', 'Lsv', 'L1vv'), L):
+                            asym = float(np.abs(x - x.T).max()) / vm.tscale(*L)
+                            if asym > max(1e-9, 0. if took_large else 1e-15 * s):
+                                viols.append({'oracle': 'symmetric-' + tname, 'key': key, 'detail': asym})
                     outcomes.append('{}:{:.5e}'.format(int(took_large), float(np.trace(L[1]))))
             # ---- standard vs large at this scale
             if (s, 'std') in res and (s, 'large') in res and s <= 1e6:
